@@ -43,6 +43,12 @@ def run_refactoring(sk, build_op, prop, check_imports=True, require_run_ok=True,
         try:
             changes = refops.perform(sp.proj, op)
             after = apply_changes(files, changes)
+        except rex.ModuleSyntaxError as e:
+            # every module of the project parses (checked above): a syntax error here is about text
+            # rope generated itself, not a refusal of the request
+            f_ = h.fail("generated_code_does_not_parse", "%s raised ModuleSyntaxError on a project that parses: %s" % (op["api"], e), model=m, skeleton=sk.name, files=files, op=op, partition=partition_sig(pat), entry=sk.entry, prop=prop)
+            f_["sig_hint"] = "generated_syntax_error:" + op["api"]
+            return f_
         except rex.RopeError:
             end_of_path(sk, extra_reserved)
             return {"refused": True}  # refused with rope's own error: accepted
